@@ -14,3 +14,4 @@ import IrisVerif.Props.C12
 import IrisVerif.Props.C16
 import IrisVerif.Props.C19
 import IrisVerif.Props.C20
+import IrisVerif.Props.C01
